@@ -7,6 +7,7 @@ import (
 	"strings"
 
 	"github.com/rulego/streamsql/functions"
+	"github.com/rulego/streamsql/utils/fieldpath"
 )
 
 // Expression types - expression type constants
@@ -50,6 +51,7 @@ type Expression struct {
 	Root               *ExprNode // Expression root node
 	useExprLang        bool      // Whether to use expr-lang/expr
 	exprLangExpression string    // expr-lang expression string
+	simpleFields       []string  // referenced top-level (non-nested) fields, for NULL filling
 }
 
 // NewExpression creates a new expression
@@ -80,10 +82,41 @@ func NewExpression(exprStr string) (*Expression, error) {
 		}, nil
 	}
 
-	return &Expression{
+	e := &Expression{
 		Root:        root,
 		useExprLang: false,
-	}, nil
+	}
+	for _, f := range e.GetFields() {
+		if !fieldpath.IsNestedField(f) {
+			e.simpleFields = append(e.simpleFields, f)
+		}
+	}
+	return e, nil
+}
+
+// withMissingAsNull returns data with every referenced top-level field that is absent
+// set to nil. NULL-aware evaluation treats a missing field as NULL; without this only a
+// direct arithmetic operand was, while a missing field in a comparison, a function
+// argument or a CASE condition aborted the whole expression. The caller's map is never
+// modified: a copy is made only when a field is actually missing.
+func (e *Expression) withMissingAsNull(data map[string]any) map[string]any {
+	var filled map[string]any
+	for _, f := range e.simpleFields {
+		if _, ok := data[f]; ok {
+			continue
+		}
+		if filled == nil {
+			filled = make(map[string]any, len(data)+len(e.simpleFields))
+			for k, v := range data {
+				filled[k] = v
+			}
+		}
+		filled[f] = nil
+	}
+	if filled == nil {
+		return data
+	}
+	return filled
 }
 
 // validateBasicSyntax performs basic syntax validation
@@ -383,5 +416,5 @@ func (e *Expression) EvaluateValueWithNull(data map[string]any) (any, bool, erro
 		result, err := e.evaluateWithExprLang(data)
 		return result, false, err
 	}
-	return evaluateNodeValueWithNull(e.Root, data)
+	return evaluateNodeValueWithNull(e.Root, e.withMissingAsNull(data))
 }
